@@ -45,6 +45,16 @@ def analyses(env, z):
     return out
 
 
+def to_smtlib_both(t):
+    from pysmt.smtlib.printers import to_smtlib
+    from pysmt.smtlib.script import smtlibscript_from_formula
+    import io
+    to_smtlib(t, daggify=True)
+    to_smtlib(t, daggify=False)
+    if t.get_type().is_bool_type():
+        smtlibscript_from_formula(t).serialize(io.StringIO())
+
+
 def rw_nnf(t, env):
     import pysmt.rewritings as rw
     return rw.nnf(t, env) if t.get_type().is_bool_type() else t
@@ -64,6 +74,13 @@ def shared_subterm_events(ck, terms, id0):
             subs_a = [c for c in ta.args() if c.args()][:3]
             if not subs_a:
                 continue
+            # history-only queries with non-default OPTIONS of the same long-lived oracles / printers
+            for opt in (lambda: ea.typeso.get_types(ta, custom_only=True), lambda: ta.size(4), lambda: ta.size(0),
+                        lambda: ea.qfo.is_qf(ta), lambda: to_smtlib_both(ta)):
+                try:
+                    opt()
+                except Exception:
+                    pass
             analyses(ea, ta)
             # results of transformations are formulas too: what was returned for T is analysed like any other term
             outs = []
